@@ -41,7 +41,9 @@ PLAN = {
                                         # retention restarted by a seek that revives a message (to a time, to a snapshot)
                                         ("Gen_Snap", 60, 1500, 30, True), ("Gen_Seek", 60, 1500, 32, True),
                                         # retention of dead-letter forwarded copies (counted from the forwarding)
-                                        ("Gen_DeadLetter", 60, 1500, 32, True), ("BFS_DL", 0, 0, 8, False)]},
+                                        ("Gen_DeadLetter", 60, 1500, 32, True), ("BFS_DL", 0, 0, 8, False),
+                                        # the same short dead-letter histories with a delivery delay injected on the dead-letter subscription
+                                        ("BFS_DLDelay", 0, 0, 9, False)]},
     "C15": {"mc": ["MC_Prune"], "gen": [("Gen_Prune", 200, 5000, 34, True), ("Gen_Names", 60, 1500, 32, True),
                     # dead-letter forwards leave messages of one topic outstanding on subscriptions of another:
                     # reclaiming the source topic must leave them alone
@@ -202,6 +204,20 @@ def _run(ctx, replay):
             for i, c in enumerate(cex):
                 scen.append({"id": "%s-cex-%d" % (mod, i), "unit_ms": 1000, "steps": IMPL_SETUP[mod] + c["hist"], "drain": False,
                              "family": mod, "design_viols": c["viols"]})
+    if prop == "C12" and not replay:
+        # bulk listings: more live resources than the server's page cap (100), page sizes below,
+        # at and above the cap. (Built here, not by TLC: 105 resources are beyond any sensible
+        # model bound; every step is still validated by TLC against the List clause.)
+        cfg0 = {"ttl": 600, "mttl": 80, "ord": False, "filt": {"op": "true"}, "minB": 20, "maxB": 30, "dlt": "", "maxAtt": 0, "push": "", "labels": {}}
+        lists = lambda kind: [{"op": "List", "kind": kind, "proj": "p", "page": pg} for pg in (0, 7, 100, 101, 1000)]
+        n = 105
+        bulk_t = [{"op": "CreateTopic", "name": "bt%03d" % i} for i in range(n)] + lists("topic")
+        bulk_s = [{"op": "CreateTopic", "name": "bt000"}] + [{"op": "CreateSub", "name": "bs%03d" % i, "topic": "bt000", "cfg": cfg0} for i in range(n)] + lists("sub") + \
+                 [{"op": "List", "kind": "topicsubs", "name": "bt000", "proj": "p", "page": pg} for pg in (0, 7, 100, 101, 1000)]
+        bulk_n = [{"op": "CreateTopic", "name": "bt000"}, {"op": "CreateSub", "name": "bs000", "topic": "bt000", "cfg": cfg0}] + \
+                 [{"op": "CreateSnap", "name": "bn%03d" % i, "sub": "bs000"} for i in range(n)] + lists("snap")
+        for nm, st in (("topics", bulk_t), ("subs", bulk_s), ("snaps", bulk_n)):
+            scen.append({"id": "bulk-%s" % nm, "unit_ms": 1000, "steps": st, "drain": False, "family": "bulk", "converge": False, "blocked": False})
     if not scen:
         raise ToolError("no scenarios generated")
     sp = os.path.join(ctx.scratch, "scenarios.ndjson")
